@@ -4,7 +4,7 @@ SPEC = {
     "harness": {
         "pkg": "c16",
         "shims": {"c16tunnel": "internal/protocol/session/tunnel"},
-        "runs": [{"args": [], "corpus": "", "timeout": 900}],
+        "runs": [{"args": [], "corpus": "", "timeout": 7200}],
     },
     # which closer wins (its reason, and with it whether the peer is notified) depends on the schedule;
     # holds checks that the pair is consistent with one of the callers
@@ -38,6 +38,13 @@ SPEC = {
         "flow: the number of UpdatePortMappingStats calls and, for an explicit Close during the copy, the totals (last partial "
         "batch is flushed after cleanup's report; it reaches the totals only through the periodic goroutine's final report) are "
         "excluded from the model comparison; holds still requires totals <= bytes delivered there and == everywhere else",
+        "Start || Close is modelled and gated for the client Tunnel (the only managed component whose Start binds the dispose "
+        "context late); Bridge.Start / StreamProcessor first I/O / storage and SessionManager background goroutines are exercised by "
+        "brg (start 1), flow, sp and mgr with Close racing the started goroutines, judged by the leak oracle, without a Start step model",
+        "observed on the unchanged tree, not a property violation: a Close that completes before Start's SetCtx leaves Start failing "
+        "cleanly (error, nothing spawned) but with a fresh live context bound and IsClosed() == false",
+        "every wait-dependent verdict (timeout, stuck, leak/live > 0) is re-run alone up to 3 times with doubled patience and reported "
+        "only if it shows every time (stats: timeouts_retried, timeouts_confirmed)",
         "Bridge.Start racing Bridge.Close (unlocked reads of the forwarders) is outside the model: see KNOWN_FINDINGS comment",
     ],
 }
